@@ -196,10 +196,24 @@ static int hostlist_register_rcmd (const char *hosts, struct rcmd_module *rmod,
                                    char *user)
 {
     hostlist_t hl = hostlist_create (hosts);
+    hostlist_t hl2;
     char * host;
 
     if (hl == NULL)
         return (-1);
+
+    /*
+     *  Expand every name once more, as wcoll_expand() in opt.c does for the
+     *   target list (second set of brackets), so that the names registered
+     *   here are the names the targets will have at rcmd_create() time.
+     */
+    hl2 = hostlist_create ("");
+    while ((host = hostlist_shift (hl))) {
+        hostlist_push (hl2, host);
+        free (host);
+    }
+    hostlist_destroy (hl);
+    hl = hl2;
 
     if (host_info_list == NULL)
         host_info_list = list_create ((ListDelF) node_rcmd_info_destroy);
